@@ -218,7 +218,7 @@ ENUM_HEADERS = ["bytes=0-", "bytes=1-", "bytes=-1", "bytes=-0", "bytes=0-0", "by
 
 def gen_cases(rng, tier):
     _fx()
-    n = {"quick": 3500, "thorough": 60000, "search": 6000}[tier]
+    n = {"quick": 2500, "thorough": 60000, "search": 6000}[tier]
     if tier in ("quick", "thorough"):
         sizes = range(0, 41) if tier == "thorough" else [0, 1, 2, 3, 5, 40]
         for size in sizes:
